@@ -194,6 +194,14 @@ fn main() {
             let _ = c.formatter().format(&input, pasfmt_core::prelude::FileOptions::new().with_cursors(&mut cur));
             println!("{}", cur.iter().map(|c| c.0.to_string()).collect::<Vec<_>>().join(","));
         }
+        "wfseeds" => {
+            // the well-formed seed programs, one JSON string per line (for the CLI-level checks)
+            for s in progs::load_seeds() {
+                if s.well_formed {
+                    println!("{}", serde_json::to_string(&s.text).unwrap());
+                }
+            }
+        }
         "lex" => {
             let text = std::fs::read_to_string(&args[2]).expect("read");
             for t in refscan::scan(&text) {
